@@ -57,7 +57,12 @@ def fix_pair(p):
     """keep only tokens the productions use (the lexer must not define others) and declarations
     about them"""
     used = set(s for ps in p["prods"].values() for rhs in ps for s in rhs if s in p["toks"])
-    p["toks"] = [t for t in p["toks"] if t in used] or p["toks"][:1]
+    # only rules reachable from S count: a token used only in an unreachable rule is still a token
+    # of the grammar, so `used' is right as it is; but a grammar without any token gets one
+    if not used:
+        p["prods"]["S"].append([p["toks"][0]])
+        used = {p["toks"][0]}
+    p["toks"] = [t for t in p["toks"] if t in used]
     p["decls"] = [dl for dl in p["decls"] if all(("'%s'" % t not in dl) or t in used for t in TOKS)]
     return p
 
